@@ -24,6 +24,7 @@ type Config struct {
 	WaivePanics   []string
 	QueryTimeout  int
 	AllowLeak     bool
+	Race          bool // happens-before data-race analysis (race.go)
 	CrossCheck    bool   // keep the transcript of assertion queries for re-checking on other solvers
 	UnwindLabel   string // when set, exhausting the loop/instruction budget is a violation with this label (non-termination)
 	IntMode       bool   // integer-with-wrap solver encoding (constant multipliers/divisors only)
@@ -56,6 +57,7 @@ type Interp struct {
 	prog       *ssa.Program
 	st         *Store
 	sol        *Solver
+	race       *raceState
 	ps         *pathState
 	cfg        *Config
 	globals    map[*ssa.Global]*Cell
@@ -540,6 +542,7 @@ func (in *Interp) visit(fr *frame, instr ssa.Instruction) cont {
 	case *ssa.Send:
 		in.chanSend(fr.get(ins.Chan).(*ChanV), fr.get(ins.X))
 	case *ssa.Store:
+		in.raceAccess(fr, fr.get(ins.Addr).(PtrV), ins.Val.Type(), true)
 		in.store(fr.get(ins.Addr).(PtrV), ins.Val.Type(), fr.get(ins.Val))
 	case *ssa.If:
 		c := fr.get(ins.Cond).(*Term)
@@ -610,6 +613,7 @@ func (in *Interp) visit(fr *frame, instr ssa.Instruction) cont {
 		if m == nil {
 			panic(goPanic{msg: "assignment to entry in nil map", site: in.site()})
 		}
+		in.raceMap(fr, m, true)
 		in.mapSet(m, fr.get(ins.Key), fr.get(ins.Value))
 	case *ssa.TypeAssert:
 		fr.env[fr.idx[ins]] = in.typeAssert(fr, ins)
@@ -686,6 +690,19 @@ func (in *Interp) allocSize(n *Term, esz int, what string) int64 {
 }
 
 // implicitViolation ends the path with a violation of an implicit assertion.
+// implicitViolationAt keeps the site the caller has set.
+func (in *Interp) implicitViolationAt(label, msg string) {
+	in.out.Label = label
+	in.out.Msg = msg
+	if in.out.Model == nil {
+		r, m := in.sol.Check(nil, true, in.st.Vars)
+		if r == Sat {
+			in.out.Model = m
+		}
+	}
+	panic(abort{kind: "violation", msg: msg})
+}
+
 func (in *Interp) implicitViolation(label, msg string) {
 	in.out.Label = label
 	in.out.Msg = msg
@@ -710,6 +727,7 @@ func (in *Interp) unop(fr *frame, ins *ssa.UnOp) Value {
 		if p.C != nil && strings.HasPrefix(p.C.name, "!uninit:") {
 			in.unsupported("read of global of a package whose init is not interpreted: " + p.C.name[8:])
 		}
+		in.raceAccess(fr, p, ins.Type(), false)
 		return in.load(p, ins.Type())
 	case token.NOT:
 		return st.BNot(x.(*Term))
